@@ -31,10 +31,10 @@ import (
 	"time"
 
 	ecommon "github.com/ChainSafe/sygma-relayer/tss/ecdsa/common"
-	tssutil "github.com/ChainSafe/sygma-relayer/tss/util"
 	eresharing "github.com/ChainSafe/sygma-relayer/tss/ecdsa/resharing"
 	esigning "github.com/ChainSafe/sygma-relayer/tss/ecdsa/signing"
 	fsigning "github.com/ChainSafe/sygma-relayer/tss/frost/signing"
+	tssutil "github.com/ChainSafe/sygma-relayer/tss/util"
 	tsscommon "github.com/binance-chain/tss-lib/common"
 	"github.com/btcsuite/btcd/btcec/v2"
 	"github.com/btcsuite/btcd/btcec/v2/schnorr"
@@ -63,6 +63,23 @@ type Mode struct {
 	Chan   string `json:"chan,omitempty"`
 	Reader string `json:"reader,omitempty"`
 	Retry  string `json:"retry,omitempty"`
+	Inputs int    `json:"inputs,omitempty"`
+}
+
+// Resub (resub.go): one more signing session after stage Stage whose FIRST attempt runs with the subset
+// S1 (coordinator S1[C1]) and is abandoned - How = commerr: every selected relayer's first broadcast
+// comes back with a CommunicationError | lost: every message is lost, nobody makes progress and the
+// attempt is cancelled - and whose retry runs on the SAME process objects with the subset S2
+// (coordinator S2[C2]).  The relayers of S2 are healthy key holders: they must obtain a valid signature.
+type Resub struct {
+	Stage  int    `json:"stage"`
+	S1     []int  `json:"s1"`
+	C1     int    `json:"c1"`
+	S2     []int  `json:"s2"`
+	C2     int    `json:"c2"`
+	How    string `json:"how"`
+	Chan   string `json:"chan,omitempty"`
+	Reader string `json:"reader,omitempty"`
 	Inputs int    `json:"inputs,omitempty"`
 }
 
@@ -102,6 +119,15 @@ type Case struct {
 	// every ex-member answers "ready" before the other signers do and runs with the start parameters
 	// the coordinator computes (session.go: attempt.arrivals)
 	Leaver bool `json:"leaver,omitempty"`
+	// Offline: in every signing session the committee members that are not among the session's relayers
+	// are offline, and the transport reports a message addressed to one of them as comm/p2p does
+	// (comm.CommunicationError); threshold+1 online holders must still sign
+	Offline bool `json:"offline,omitempty"`
+	// Resubs: sessions whose abandoned first attempt ran with another subset (resub.go)
+	Resubs []Resub `json:"resubs,omitempty"`
+	// btcexec: the committee's FROST shares are refreshed (same committee and threshold) before the
+	// executor runs; the transfer must then be signed and broadcast ("the new committee can sign")
+	Refresh bool `json:"refresh,omitempty"`
 	// release: capacity of the result channel and whether its reader is late
 	Cap  int  `json:"cap,omitempty"`
 	Late bool `json:"late,omitempty"`
@@ -474,6 +500,9 @@ func signStage(w *world, proto string, u []peer.ID, committee, subset []int, coo
 		st.Note += "could not create the signing processes: " + err.Error()
 		return st
 	}
+	if o.Offline {
+		setOffline(members, u, committee, idx)
+	}
 	n := len(subset)
 	all := make([]int, n)
 	for i := range all {
@@ -509,7 +538,32 @@ func signStage(w *world, proto string, u []peer.ID, committee, subset []int, coo
 		ready = append(ready, n)
 		plan = []attempt{{coord: coord, ready: all, fault: true}, {coord: n, ready: ready}}
 	}
-	so := runSession(w.hub, members, sids, plan, o, 120*time.Second)
+	so := runSession(w.hub, members, sids, plan, o, 120*time.Second, proto == "ecdsa")
+	fillStage(&st, so, members, proto, digests, pub, tweaked)
+	return st
+}
+
+// setOffline: the committee members that are not relayers of the session (idx) cannot be reached by them.
+func setOffline(members []*member, u []peer.ID, committee, idx []int) {
+	var off []peer.ID
+	for _, m := range committee {
+		in := false
+		for _, i := range idx {
+			in = in || i == m
+		}
+		if !in {
+			off = append(off, u[m])
+		}
+	}
+	for _, m := range members {
+		m.fc.setOffline(off)
+	}
+}
+
+// fillStage: what the session's relayers released and whether it is valid (see signStage).
+func fillStage(stp *Stage, so sessionOut, members []*member, proto string, digests [][]byte, pub []byte, tweaked *btcec.PublicKey) {
+	st := *stp
+	defer func() { *stp = st }()
 	st.Completed, st.Coord = so.Completed, so.Coord
 	if st.Coord < 0 { // the coordinator did not select itself: no position among the signers is the coordinator's
 		st.Coord = len(so.Signers)
@@ -562,7 +616,6 @@ func signStage(w *world, proto string, u []peer.ID, committee, subset []int, coo
 		}
 	}
 	st.Attempts = so.Attempts
-	return st
 }
 
 // ecdsaValid: the signature is over exactly the requested digest, verifies under the stored group
@@ -597,9 +650,9 @@ func signSubsets(c Case, committee []int, t, stage int) [][]int {
 func optsFor(c Case, k int) signOpts {
 	if len(c.Modes) > 0 {
 		m := c.Modes[k%len(c.Modes)]
-		return signOpts{Chan: m.Chan, Reader: m.Reader, Retry: m.Retry, Inputs: m.Inputs}
+		return signOpts{Chan: m.Chan, Reader: m.Reader, Retry: m.Retry, Inputs: m.Inputs, Offline: c.Offline}
 	}
-	return signOpts{Chan: c.Chan, Reader: c.Reader, Retry: c.Retry, Inputs: c.Inputs}
+	return signOpts{Chan: c.Chan, Reader: c.Reader, Retry: c.Retry, Inputs: c.Inputs, Offline: c.Offline}
 }
 
 func runScenario(c Case) Obs {
@@ -661,6 +714,23 @@ func runScenario(c Case) Obs {
 		st, pub := sharesStage(w, c.Proto, u, committee, t, oldPts)
 		o.Stages = append(o.Stages, st)
 		prevPts = st.Pts
+		// sessions whose abandoned first attempt ran with another subset (resub.go); they run while the
+		// regular sessions of the stage do
+		var rsubs []Resub
+		for _, rs := range c.Resubs {
+			if rs.Stage == stage {
+				rsubs = append(rsubs, rs)
+			}
+		}
+		rres := make([]Stage, len(rsubs))
+		var rwg sync.WaitGroup
+		for k, rs := range rsubs {
+			rwg.Add(1)
+			go func(k int, rs Resub, committee []int) {
+				defer rwg.Done()
+				rres[k] = resubStage(w, c, u, committee, rs, k, stage > 0, pub)
+			}(k, rs, append([]int(nil), committee...))
+		}
 		if signAt[stage] {
 			subs := signSubsets(c, committee, t, stage)
 			res := make([]Stage, len(subs))
@@ -687,12 +757,16 @@ func runScenario(c Case) Obs {
 					go func(k int, sub []int) {
 						defer wg.Done()
 						coord := int((c.Seed + uint64(k) + uint64(stage) + 1) % uint64(len(sub)))
-						res[k] = signStage(w, c.Proto, u, committee, sub, coord, true, stage, c.Seed+77, pub, signOpts{}, ex)
+						res[k] = signStage(w, c.Proto, u, committee, sub, coord, true, stage, c.Seed+77, pub, signOpts{Offline: c.Offline}, ex)
 					}(k, sub)
 				}
 				wg.Wait()
 				o.Stages = append(o.Stages, res...)
 			}
+		}
+		if len(rsubs) > 0 {
+			rwg.Wait()
+			o.Stages = append(o.Stages, rres...)
 		}
 		if stage >= len(c.Reshares) {
 			break
@@ -798,6 +872,10 @@ func futureOf(c Case) *future {
 
 func (f *future) get(c Case) Obs {
 	f.once.Do(func() {
+		if os.Getenv("VERIF_C08_TIMING") != "" {
+			t0 := time.Now()
+			defer func() { fmt.Fprintf(os.Stderr, "c08-timing %6.1fs  %s\n", time.Since(t0).Seconds(), caseKey(c)) }()
+		}
 		if c.Proto == "ecdsa" {
 			cpuSem <- struct{}{}
 			defer func() { <-cpuSem }()
@@ -945,6 +1023,7 @@ func gen(r *vgen.Rng, tier string) []Case {
 	}
 	out = append(out, genBtcWatch(r, tier)...)
 	seed := r.U64() % 1000
+	u5 := universe(5)
 	scn := []Case{
 		// the repository's fixture shares: every pair signs
 		{Kind: "scenario", Proto: "ecdsa", Start: "fixtures", SignAt: []int{0}, Seed: seed},
@@ -953,27 +1032,33 @@ func gen(r *vgen.Rng, tier string) []Case {
 		// (ECDSA: the six pairs hand their signature over in six ways, two of them after a failed first attempt)
 		// (Overlap: one relayer's signing processes of the first session are constructed WHILE the refresh
 		// runs there - overlap.go)
-		{Kind: "scenario", Proto: "ecdsa", Start: "fixtures", Reshares: []Reshare{{Members: []int{0, 1, 2, 3}, T: 1}}, SignAt: []int{1}, Seed: seed, Overlap: true,
-			Modes: []Mode{{}, {Chan: "unbuf", Reader: "late"}, {Retry: "commerr"}, {Chan: "unbuf", Reader: "evm"}, {Retry: "subset", Chan: "unbuf"}, {Chan: "cap1"}}},
+		// (Offline: the committee members outside a session are offline and a message addressed to them
+		// comes back as a CommunicationError; Resubs: three more sessions whose abandoned first attempt ran
+		// with another subset in which a common relayer had another position - resub.go)
+		{Kind: "scenario", Proto: "ecdsa", Start: "fixtures", Reshares: []Reshare{{Members: []int{0, 1, 2, 3}, T: 1}}, SignAt: []int{1}, Seed: seed, Overlap: true, Offline: true,
+			Modes:  []Mode{{}, {Chan: "unbuf", Reader: "late"}, {Retry: "commerr"}, {Chan: "unbuf", Reader: "evm"}, {Retry: "subset", Chan: "unbuf"}, {Chan: "cap1"}},
+			Resubs: resubsFor(u5, []int{0, 1, 2, 3}, 1, 1, []string{"commerr", "lost", "commerr"}, 3, seed)},
 		{Kind: "scenario", Proto: "frost", Start: "fixtures", Reshares: []Reshare{{Members: []int{0, 1, 2, 3}, T: 1}}, SignAt: []int{1}, Seed: seed},
 		// refresh of the unchanged committee; the three pairs: retried, late reader, retried with a changed subset
-		{Kind: "scenario", Proto: "frost", Start: "fixtures", Reshares: []Reshare{{Members: []int{0, 1, 2}, T: 1}}, SignAt: []int{1}, Seed: seed, Overlap: true,
-			Modes: []Mode{{Retry: "commerr"}, {Chan: "unbuf", Reader: "late"}, {Retry: "subset", Chan: "btc", Inputs: 2}}},
+		{Kind: "scenario", Proto: "frost", Start: "fixtures", Reshares: []Reshare{{Members: []int{0, 1, 2}, T: 1}}, SignAt: []int{1}, Seed: seed, Overlap: true, Offline: true,
+			Modes:  []Mode{{Retry: "commerr"}, {Chan: "unbuf", Reader: "late"}, {Retry: "subset", Chan: "btc", Inputs: 2}},
+			Resubs: resubsFor(u5, []int{0, 1, 2}, 1, 1, []string{"commerr", "lost"}, 2, seed)},
 		// a member leaves (Leaver: and stays online with its old share, answering "ready" first)
 		{Kind: "scenario", Proto: "ecdsa", Start: "fixtures", Reshares: []Reshare{{Members: []int{0, 2}, T: 1}}, SignAt: []int{1}, Seed: seed, Overlap: true, Leaver: true},
 		{Kind: "scenario", Proto: "frost", Start: "fixtures", Reshares: []Reshare{{Members: []int{0, 2}, T: 1}}, SignAt: []int{1}, Seed: seed, Overlap: true, Leaver: true},
 		// threshold raised (ECDSA: together with a join and a leave)
-		{Kind: "scenario", Proto: "ecdsa", Start: "fixtures", Reshares: []Reshare{{Members: []int{0, 1, 3, 4}, T: 2}}, SignAt: []int{1}, Seed: seed, Leaver: true,
-			Modes: []Mode{{}, {Chan: "unbuf", Reader: "late"}, {}, {Chan: "unbuf", Reader: "evm"}}},
+		{Kind: "scenario", Proto: "ecdsa", Start: "fixtures", Reshares: []Reshare{{Members: []int{0, 1, 3, 4}, T: 2}}, SignAt: []int{1}, Seed: seed, Leaver: true, Offline: true,
+			Modes:  []Mode{{}, {Chan: "unbuf", Reader: "late"}, {}, {Chan: "unbuf", Reader: "evm"}},
+			Resubs: resubsFor(u5, []int{0, 1, 3, 4}, 2, 1, []string{"lost"}, 1, seed)},
 		{Kind: "scenario", Proto: "frost", Start: "fixtures", Reshares: []Reshare{{Members: []int{0, 1, 2}, T: 2}}, SignAt: []int{1}, Seed: seed, Overlap: true},
 		// abandoned sessions: a refresh with a changed threshold / committee or a key generation is
 		// constructed on the relayers' long-lived stores and given up (Stop without Run, Run with a context
 		// that is already cancelled, rejected start parameters); then every pair of the committee signs
-		{Kind: "scenario", Proto: "frost", Start: "fixtures", Reshares: []Reshare{{Members: []int{0, 1, 2}, T: 2, Abandon: "stop"}}, SignAt: []int{1}, Seed: seed},
+		{Kind: "scenario", Proto: "frost", Start: "fixtures", Reshares: []Reshare{{Members: []int{0, 1, 2}, T: 2, Abandon: "stop"}}, SignAt: []int{1}, Seed: seed, Offline: true},
 		{Kind: "scenario", Proto: "frost", Start: "fixtures", Reshares: []Reshare{{Members: []int{0, 1, 2, 3}, T: 1, Abandon: "cancel"},
 			{Members: []int{0, 1, 2}, T: 2, Op: "keygen", Abandon: "stop"}, {Members: []int{0, 1, 3}, T: 2, Abandon: "badparams"}}, SignAt: []int{3}, Seed: seed + 1},
 		{Kind: "scenario", Proto: "ecdsa", Start: "fixtures", Reshares: []Reshare{{Members: []int{0, 1, 3, 4}, T: 2, Abandon: "stop"},
-			{Members: []int{0, 1, 2}, T: 2, Op: "keygen", Abandon: "stop"}, {Members: []int{0, 1, 2}, T: 2, Abandon: "badparams"}}, SignAt: []int{3}, Seed: seed},
+			{Members: []int{0, 1, 2}, T: 2, Op: "keygen", Abandon: "stop"}, {Members: []int{0, 1, 2}, T: 2, Abandon: "badparams"}}, SignAt: []int{3}, Seed: seed, Offline: true},
 	}
 	// how the signature is handed over (the executors' result channels and readers) and retried
 	// attempts on the same process objects (session.go); fixture shares, a rotating choice of subsets
@@ -988,9 +1073,12 @@ func gen(r *vgen.Rng, tier string) []Case {
 		Case{Kind: "scenario", Proto: "frost", Start: "fixtures", SignAt: []int{0}, Seed: seed + 3, Retry: "subset", Chan: "btc", Inputs: 2, MaxSubsets: 1},
 	)
 	// the complete BTC executor on three relayers: a transfer that needs two of the bridge's UTXOs
-	scn = append(scn, Case{Kind: "btcexec", Inputs: 2, Seed: seed})
+	// (Refresh: after a refresh of the committee's FROST shares - then the transfer MUST be signed and
+	// broadcast: every input's signing session, run under the session id the executor gives it)
+	scn = append(scn, Case{Kind: "btcexec", Inputs: 2, Seed: seed}, Case{Kind: "btcexec", Inputs: 2, Seed: seed + 4, Refresh: true})
 	if tier == "thorough" {
-		scn = append(scn, Case{Kind: "btcexec", Inputs: 1, Seed: seed + 1}, Case{Kind: "btcexec", Inputs: 3, Seed: seed + 2}, Case{Kind: "btcexec", Inputs: 2, Seed: seed + 3})
+		scn = append(scn, Case{Kind: "btcexec", Inputs: 1, Seed: seed + 1}, Case{Kind: "btcexec", Inputs: 3, Seed: seed + 2}, Case{Kind: "btcexec", Inputs: 2, Seed: seed + 3},
+			Case{Kind: "btcexec", Inputs: 3, Seed: seed + 5, Refresh: true}, Case{Kind: "btcexec", Inputs: 1, Seed: seed + 6, Refresh: true})
 		for _, proto := range []string{"ecdsa", "frost"} {
 			scn = append(scn,
 				Case{Kind: "scenario", Proto: proto, Start: "fixtures", SignAt: []int{0}, Seed: seed + 5, Chan: "unbuf"},
@@ -1029,6 +1117,36 @@ func gen(r *vgen.Rng, tier string) []Case {
 			Case{Kind: "scenario", Proto: "ecdsa", Start: "keygen", N: 3, T: 1, Reshares: []Reshare{{Members: []int{0, 1, 2, 3}, T: 2, Abandon: "stop"}}, SignAt: []int{1}, Seed: seed + 21},
 			Case{Kind: "scenario", Proto: "ecdsa", Start: "fixtures", Reshares: []Reshare{{Members: []int{0, 1, 3}, T: 1}, {Members: []int{0, 3}, T: 1}}, SignAt: []int{1, 2}, Seed: seed + 22, Leaver: true},
 			Case{Kind: "scenario", Proto: "frost", Start: "fixtures", Reshares: []Reshare{{Members: []int{1, 2}, T: 1}}, SignAt: []int{1}, Seed: seed + 22, Leaver: true},
+		)
+		// offline outsiders and retries with another subset (resub.go): every ordered pair of subsets of the
+		// fixture committee after a refresh of the unchanged committee, both ways of abandoning, with the
+		// executors' channels and readers; larger committees and thresholds; on the fixture shares themselves
+		withModes := func(rs []Resub, ms []Mode) []Resub {
+			for i := range rs {
+				m := ms[i%len(ms)]
+				rs[i].Chan, rs[i].Reader, rs[i].Inputs = m.Chan, m.Reader, m.Inputs
+			}
+			return rs
+		}
+		scn = append(scn,
+			Case{Kind: "scenario", Proto: "ecdsa", Start: "fixtures", Reshares: []Reshare{{Members: []int{0, 1, 2}, T: 1}}, SignAt: []int{1}, Seed: seed + 30, Offline: true,
+				Resubs: withModes(resubsFor(u5, []int{0, 1, 2}, 1, 1, []string{"commerr", "lost"}, 6, seed), []Mode{{}, {Chan: "unbuf", Reader: "late"}, {Chan: "unbuf", Reader: "evm"}, {Chan: "cap1"}})},
+			Case{Kind: "scenario", Proto: "ecdsa", Start: "fixtures", Reshares: []Reshare{{Members: []int{0, 1, 2}, T: 1}}, SignAt: []int{1}, Seed: seed + 31, Offline: true,
+				Resubs: resubsFor(u5, []int{0, 1, 2}, 1, 1, []string{"lost", "commerr"}, 6, seed+1)},
+			Case{Kind: "scenario", Proto: "frost", Start: "fixtures", Reshares: []Reshare{{Members: []int{0, 1, 2}, T: 1}}, SignAt: []int{1}, Seed: seed + 30, Offline: true,
+				Resubs: withModes(resubsFor(u5, []int{0, 1, 2}, 1, 1, []string{"commerr", "lost"}, 6, seed), []Mode{{}, {Chan: "unbuf", Reader: "late"}, {Chan: "btc", Inputs: 2}})},
+			Case{Kind: "scenario", Proto: "frost", Start: "fixtures", Reshares: []Reshare{{Members: []int{0, 1, 2}, T: 1}}, SignAt: []int{1}, Seed: seed + 31, Offline: true,
+				Resubs: resubsFor(u5, []int{0, 1, 2}, 1, 1, []string{"lost", "commerr"}, 6, seed+1)},
+			Case{Kind: "scenario", Proto: "ecdsa", Start: "fixtures", Reshares: []Reshare{{Members: []int{0, 1, 2, 3, 4}, T: 2}}, SignAt: []int{1}, Seed: seed + 32, Offline: true, MaxSubsets: 4,
+				Resubs: resubsFor(u5, []int{0, 1, 2, 3, 4}, 2, 1, []string{"lost"}, 6, seed)},
+			Case{Kind: "scenario", Proto: "ecdsa", Start: "fixtures", Reshares: []Reshare{{Members: []int{1, 2, 3, 4}, T: 1}}, SignAt: []int{1}, Seed: seed + 33, Offline: true, MaxSubsets: 3,
+				Resubs: resubsFor(u5, []int{1, 2, 3, 4}, 1, 1, []string{"commerr", "lost"}, 8, seed+2)},
+			Case{Kind: "scenario", Proto: "frost", Start: "keygen", N: 4, T: 2, SignAt: []int{0}, Seed: seed + 34, Offline: true,
+				Resubs: resubsFor(u5, []int{0, 1, 2, 3}, 2, 0, []string{"lost", "commerr"}, 6, seed)},
+			Case{Kind: "scenario", Proto: "ecdsa", Start: "fixtures", SignAt: []int{0}, Seed: seed + 35, Offline: true,
+				Resubs: resubsFor(u5, []int{0, 1, 2}, 1, 0, []string{"commerr", "lost"}, 6, seed)},
+			Case{Kind: "scenario", Proto: "frost", Start: "fixtures", SignAt: []int{0}, Seed: seed + 35, Offline: true,
+				Resubs: resubsFor(u5, []int{0, 1, 2}, 1, 0, []string{"commerr", "lost"}, 6, seed)},
 		)
 		for k := uint64(0); k < 4; k++ { // more seeds = other digests, coordinators and link delays
 			scn = append(scn,
@@ -1156,9 +1274,17 @@ func coq(c Case, o Obs) string {
 			for i := range all {
 				all[i] = true
 			}
-			rs = append(append([]RelayerTx(nil), rs...), RelayerTx{Sent: 99, Valids: all})
+			// (after a refresh, when no relayer sent anything: nothing is added - the obligation to sign is
+			// judged on what the relayers did)
+			anySent := false
+			for _, r := range rs {
+				anySent = anySent || r.Sent > 0
+			}
+			if !c.Refresh || anySent {
+				rs = append(append([]RelayerTx(nil), rs...), RelayerTx{Sent: 99, Valids: all})
+			}
 		}
-		return "BtcExec " + vgen.Nat(c.Inputs) + " " + vgen.ListOf(rs, func(r RelayerTx) string {
+		return "BtcExec " + vgen.Bool(c.Refresh) + " " + vgen.Nat(c.Inputs) + " " + vgen.ListOf(rs, func(r RelayerTx) string {
 			return vgen.Pair(vgen.Nat(r.Sent), vgen.ListOf(r.Valids, vgen.Bool))
 		})
 	case "scenario":
@@ -1246,6 +1372,12 @@ func scenarioKind(c Case) string {
 	if c.Leaver {
 		mode = append(mode, "leaver")
 	}
+	if c.Offline {
+		mode = append(mode, "offline")
+	}
+	if len(c.Resubs) > 0 {
+		mode = append(mode, "resub")
+	}
 	if anyAbandoned {
 		mode = append(mode, "abandon")
 	}
@@ -1268,6 +1400,9 @@ func main() {
 				return scenarioKind(c)
 			}
 			if c.Kind == "btcexec" {
+				if c.Refresh {
+					return fmt.Sprintf("btcexec/%d-inputs-after-refresh", c.Inputs)
+				}
 				return fmt.Sprintf("btcexec/%d-inputs", c.Inputs)
 			}
 			return c.Kind
@@ -1289,6 +1424,6 @@ func main() {
 			}
 			return len(o.Stages) >= 2
 		},
-		Rule: "glue: both coordinator flags through the real processEndMessage; random committees of 1-9 well-formed peer ids (sha256- and identity-multihash) through PartiesFromPeers, sortParties (old subset, incl. non-subset and empty) and unmarshallStartParams/validateStartParams (holder / non-holder, perturbed subsets, thresholds -1..|sub|+1); scenarios: real in-process ECDSA and FROST runs from the fixture key shares (thorough: also from a real keygen) with join / leave / threshold change refreshes and every threshold+1 subset signing, every process of a relayer on ONE long-lived store object per protocol whose hand-outs are compared with the file after every stage (read twice, the first result modified); abandoned refreshes / key generations (Stop without Run, Run with a cancelled context, rejected start parameters) followed by signing; after a refresh with a leaving member extra sessions in which the ex-member is online with its old share and answers ready first; signing sessions with the executors' result channels (unbuffered / capacity 1 / one FROST process per input sharing a channel of capacity = inputs) read by a parked, a late or an EVM-watchExecution-style reader, and sessions whose first attempt fails (CommunicationError on every signer's first key-sign broadcast, optionally a left-out member joining) and whose SAME process objects run again; processEndMessage with channel capacities 0/1/2/8 x parked/late reader; distinct = distinct input JSON; non-trivial = at least 2 peers (parties), a proper non-empty old subset (sortp), a non-empty subset (validate), a scenario with at least two observed stages",
+		Rule: "glue: both coordinator flags through the real processEndMessage; random committees of 1-9 well-formed peer ids (sha256- and identity-multihash) through PartiesFromPeers, sortParties (old subset, incl. non-subset and empty) and unmarshallStartParams/validateStartParams (holder / non-holder, perturbed subsets, thresholds -1..|sub|+1); scenarios: real in-process ECDSA and FROST runs from the fixture key shares (thorough: also from a real keygen) with join / leave / threshold change refreshes and every threshold+1 subset signing, every process of a relayer on ONE long-lived store object per protocol whose hand-outs are compared with the file after every stage (read twice, the first result modified); abandoned refreshes / key generations (Stop without Run, Run with a cancelled context, rejected start parameters) followed by signing; after a refresh with a leaving member extra sessions in which the ex-member is online with its old share and answers ready first; signing sessions with the executors' result channels (unbuffered / capacity 1 / one FROST process per input sharing a channel of capacity = inputs) read by a parked, a late or an EVM-watchExecution-style reader, and sessions whose first attempt fails (CommunicationError on every signer's first key-sign broadcast, optionally a left-out member joining) and whose SAME process objects run again; OFFLINE outsiders: in the scenarios marked offline the committee members that take no part in a signing session cannot be reached and the transport reports a message addressed to one of them the way comm/p2p does (the reachable addressees get it, the call returns comm.CommunicationError) - threshold+1 online holders must still sign; RETRIES WITH ANOTHER SUBSET (resubs): sessions whose first attempt runs with a subset S1 and is abandoned (CommunicationError on every first broadcast, or every message lost and the attempt cancelled once everybody waits) and whose second attempt runs on the SAME process objects with another subset S2 - pairs in which a common relayer has another position among the sorted parties first, ECDSA with 2 and 3 signers, FROST -, the holders of S2 must obtain a valid signature; the complete BTC executor also after a refresh of the FROST shares, where the transfer must be signed and broadcast; processEndMessage with channel capacities 0/1/2/8 x parked/late reader; distinct = distinct input JSON; non-trivial = at least 2 peers (parties), a proper non-empty old subset (sortp), a non-empty subset (validate), a scenario with at least two observed stages",
 	})
 }
